@@ -1655,9 +1655,17 @@ def register(R):
 
     DOFq = f'{UT}:DeferredOpenFile'
     R.add_fields(DOFq, _filename=ExtT('str'), _fileobj=OptT(ExtT('destfile')), _start_byte=Int, _mode=Str, _open_function=ExtT('open_fn'))
-    R.external('destfile', write=ExtSpec(raises=('Exception',)), seek=ExtSpec(raises=('Exception',)),
-               close=ExtSpec(raises=('Exception',)), read=ExtSpec(returns=ExtT('bytes'), raises=('Exception',)),
-               tell=ExtSpec(returns=Int, raises=('Exception',)))
+    # (OSError is enumerated: it is THE failure class of file operations -- disk full, EIO, EPIPE at the flush in close() --
+    #  and the one a handler would name)
+    R.external('destfile', write=ExtSpec(raises=('Exception', 'OSError')), seek=ExtSpec(raises=('Exception', 'OSError')),
+               close=ExtSpec(raises=('Exception', 'OSError')), read=ExtSpec(returns=ExtT('bytes'), raises=('Exception', 'OSError')),
+               tell=ExtSpec(returns=Int, raises=('Exception', 'OSError')))
+
+    def no_failure_swallowed(c):
+        """C03: a destination open / seek / write / close (or any other step) that raised is not swallowed: the function
+        returns normally only if nothing it called raised."""
+        return {'returns_normally_only_if_no_step_raised': (B(not any(
+            e.extra.get('raised') is not None for e in flat(c.trace) if e.kind in ('ext', 'call'))), ['C03', 'C06', 'C02'])}
     R.external('open_fn', **{'()': ExtSpec(returns=ExtT('destfile'), raises=('OSError',))})
     R.mark_inline(f'{DOFq}.close', f'{DOFq}.name', f'{DOFq}._open_if_needed', f'{DOFq}.write', f'{DOFq}.seek')
 
@@ -1669,30 +1677,32 @@ def register(R):
         okr = len(rn) == 1 and rn[0].extra['env']['current_filename'] is c.old.f(c.a_fileobj, '_filename') \
             and rn[0].extra['env']['new_filename'] is c.a_final_filename
         return {
+            **no_failure_swallowed(c),
             'temp_file_closed_before_the_rename': z3.If(opened, B(len(cl) == 1 and bool(rn) and index_of(tr, cl[0]) < index_of(tr, rn[0])), B(len(cl) == 0)),
             'publishes_by_one_rename_of_the_temp_file_to_the_destination': B(bool(okr)),
             'touches_the_destination_name_only_through_the_rename': B(all(e is rn[0] or e in cl for e in tr if e.kind in ('ext', 'call')) if rn else False),
         }
 
-    R.contract(f'{DL}:IORenameFileTask._main', props=['C06'],
+    R.contract(f'{DL}:IORenameFileTask._main', props=['C06', 'C03'],
                params=dict(fileobj=ObjT(DOFq), final_filename=ExtT('fileobj_or_name'), osutil=ObjT(OSU)),
                checks=rename_checks, raises={'Exception': lambda c: {'destination_untouched_unless_renamed': B(True)}},
                raise_when={'Exception': lambda c: None})
-    R.contract(f'{DL}:IOCloseTask._main', props=['C06'], params=dict(fileobj=ObjT(DOFq)),
+    R.contract(f'{DL}:IOCloseTask._main', props=['C06', 'C03'], params=dict(fileobj=ObjT(DOFq)),
                checks=lambda c: {'closes_the_file_if_it_was_opened': z3.If(z3.Not(is_none(c.old.f(c.a_fileobj, '_fileobj'))),
-                                                                           B(len(exts(c.trace, 'destfile.close')) == 1), B(len(exts(c.trace, 'destfile.close')) == 0))},
+                                                                           B(len(exts(c.trace, 'destfile.close')) == 1), B(len(exts(c.trace, 'destfile.close')) == 0)),
+                                 **no_failure_swallowed(c)},
                raises={'Exception': only_propagates}, raise_when={'Exception': lambda c: None})
 
     def iowrite_checks(c):
         tr = [e for e in c.trace if e.kind == 'ext']
         okk = len(tr) == 2 and tr[0].name == 'destfile.seek' and tr[0].args == (c.a_offset,) and tr[1].name == 'destfile.write' and tr[1].args == (c.a_data,)
-        return {'seeks_to_the_offset_then_writes_the_data': B(okk)}
+        return {'seeks_to_the_offset_then_writes_the_data': B(okk), **no_failure_swallowed(c)}
 
-    R.contract(f'{DL}:IOWriteTask._main', props=['C02', 'C06'], params=dict(fileobj=ExtT('destfile'), data=BytesT('obj'), offset=Int),
+    R.contract(f'{DL}:IOWriteTask._main', props=['C02', 'C06', 'C03'], params=dict(fileobj=ExtT('destfile'), data=BytesT('obj'), offset=Int),
                checks=iowrite_checks, raises={'Exception': only_propagates}, raise_when={'Exception': lambda c: None})
-    R.contract(f'{DL}:IOStreamingWriteTask._main', props=['C02', 'C16'], params=dict(fileobj=ExtT('destfile'), data=BytesT('obj')),
+    R.contract(f'{DL}:IOStreamingWriteTask._main', props=['C02', 'C16', 'C03'], params=dict(fileobj=ExtT('destfile'), data=BytesT('obj')),
                checks=lambda c: {'appends_the_data_without_seeking': B(
-                   [(e.name, e.args) for e in c.trace if e.kind == 'ext'] == [('destfile.write', (c.a_data,))])},
+                   [(e.name, e.args) for e in c.trace if e.kind == 'ext'] == [('destfile.write', (c.a_data,))]), **no_failure_swallowed(c)},
                raises={'Exception': only_propagates}, raise_when={'Exception': lambda c: None})
 
     # ================================================================== delete
